@@ -234,11 +234,21 @@ func summarize(s *Session, prop, tier string, reps []*FuncReport, lemmas []*Lemm
 	for _, m := range missing {
 		res.EngineErrors++
 		res.Lines = append(res.Lines, fmt.Sprintf("ENGINE-ERROR: no contract matches %q (contract file or function missing)", m))
+		res.Violations++
+		p := writeUndecidedReplay(prop, prop+"."+sanitize(m)+".contract.present", m, "no contract matches this key: the contract file or the function is missing")
+		res.Lines = append(res.Lines, fmt.Sprintf("VIOLATION property=%s replay=%s no-failing-input-found", prop, p))
 	}
 	for _, r := range reps {
 		if r.Unverified != "" {
 			res.EngineErrors++
 			res.Lines = append(res.Lines, fmt.Sprintf("ENGINE-ERROR: %s is outside the verified subset: %s", r.Key, r.Unverified))
+			// the obligations of this contract cannot be generated from the current source (contract names a local or
+			// a function the code no longer has, loop without invariant, construct outside the subset): the verifier
+			// does not accept the contract on this code. Reported as an undischarged obligation, never as a counterexample.
+			res.Violations++
+			name := prop + "." + shortFunc(r.Key) + ".contract.applies_to_current_source"
+			p := writeUndecidedReplay(prop, name, r.Key, r.Unverified)
+			res.Lines = append(res.Lines, fmt.Sprintf("VIOLATION property=%s replay=%s no-failing-input-found", prop, p))
 			continue
 		}
 		for _, g := range groupObls(r.Obls) {
@@ -326,4 +336,25 @@ func (x *Exec) registerOracleGhost() {
 	cpTy, qpTy := cpP.Type("CurrencyPair").Type(), qpP.Type("QuotePrice").Type()
 	sort := "(Array " + x.enc.Sort(cpTy) + " (Opt " + x.enc.Sort(qpTy) + "))"
 	x.ghostTy[oraclePriceGhost] = ghostInfo{Arr: true, Opt: true, ValTy: qpTy, KeyTy: cpTy, Sort: sort}
+}
+
+func shortFunc(key string) string {
+	if i := strings.LastIndex(key, "."); i >= 0 {
+		return key[i+1:]
+	}
+	return key
+}
+
+// writeUndecidedReplay: replay file for a contract whose obligations could not be generated from the current source.
+func writeUndecidedReplay(prop, name, fn, why string) string {
+	dir := filepath.Join(outDir(), "replay")
+	os.MkdirAll(dir, 0o755)
+	p := filepath.Join(dir, sanitize(name)+".json")
+	data, _ := json.MarshalIndent(map[string]interface{}{
+		"property": prop, "obligation": name, "function": fn, "kind": "contract-applicability",
+		"solver_result": "not generated", "verifier_output": why, "confirmed_on_real_code": false,
+		"note": "the contract of this function no longer applies to the source (or the source left the verified subset), so its obligations are undischarged; this is not a counterexample: the property is undecided for this function until the contract is adapted",
+	}, "", " ")
+	os.WriteFile(p, data, 0o644)
+	return p
 }
